@@ -99,7 +99,8 @@ def get_eof_2qubit(rho:np.ndarray):
         ret = 0
     else:
         tmp1 = (1 + np.sqrt(1-tmp0*tmp0))/2
-        ret = -tmp1*np.log(tmp1) - (1-tmp1)*np.log(1-tmp1)
+        tmp2 = 1 - tmp1 #exactly 0 for a tiny concurrence, 0*log(0)=0
+        ret = -tmp1*np.log(tmp1) - (tmp2*np.log(tmp2) if tmp2>0 else 0)
     return ret
 
 
